@@ -173,6 +173,44 @@ def array_axes(case):
     return axes
 
 
+def fixable_axes(case):
+    """(axes admissible in fixed_indices, axes reduced somewhere) - the harness's own analysis of the case."""
+    ax = dict(array_axes(case))
+    # a root that no MapSpec ever mentions is a plain value for pipefunc, not an array with axes
+    mentioned = {p for f in case["funcs"] if f["mapspec"] for p, m in f["modes"].items() if isinstance(m, list)}
+    mentioned |= {o for f in case["funcs"] if f["mapspec"] for o in f["outs"]}
+    for r in case["roots"]:
+        if r not in mentioned:
+            ax[r] = ()
+        else:
+            # a position of a root array carries a name only if some MapSpec names it there
+            named_pos = {}
+            for f in case["funcs"]:
+                m = f["modes"].get(r) if f["mapspec"] else None
+                if isinstance(m, list):
+                    for k, a in enumerate(m):
+                        if a is not None:
+                            named_pos[k] = a
+            ax[r] = tuple(named_pos.get(k, f"<unnamed{k}>") for k in range(len(ax[r])))
+    reduced = set()      # axis names reduced somewhere
+    for f in case["funcs"]:
+        for p in f["params"]:
+            a = ax.get(p, ())
+            if not a:
+                continue
+            m = f["modes"].get(p, "whole") if f["mapspec"] is not None else "whole"
+            if m == "whole":
+                reduced.update(a)
+            else:
+                reduced.update(x for x, s in zip(a, m) if s is None)
+    root_axes = {a for r in case["roots"] for a in ax[r] if not a.startswith("<")}
+    reduced = {a for a in reduced if not a.startswith("<")}
+    named = {a for f in case["funcs"] if f["mapspec"] for a in f["out_axes"] if a not in f["internal"]}
+    internal = {a for f in case["funcs"] for a in f["internal"]}
+    cand = sorted((root_axes & named) - reduced - internal)
+    return cand, sorted(reduced & (root_axes | named))
+
+
 # ------------------------------------------------------------------ building real pipefunc objects
 def build_funcs(case, log=None, fault=None, tag=None, cache=None, extra=None):
     """Return list of PipeFunc.  `cache`: set of function names with cache=True.
